@@ -31,6 +31,14 @@ def cases(tier, seed):
         c.update({"cid": f"c20-{seed}-{k}", "lib": rng.choice(["ufoLib2", "defcon"]), "writers": "default",
                   "via": rng.choice(["static", "static", "vf", "vf-merge", "interp"]), "flavor": rng.choice(["tt", "tt", "cff"])})
         out.append(c)
+    # scripts chained by kerning pairs that straddle two of them (every listing order of the links): each script's language
+    # system exposes the kerning that acts on its glyphs, next to the mark features
+    rng2 = random.Random(seed * 256203221 + 200020)
+    for k in range(24 if tier == "quick" else 240):
+        c = layout_gen.chain_pairs_font(rng2, k)
+        c.update({"cid": f"c20-{seed}-ch{k}", "lib": rng2.choice(["ufoLib2", "defcon"]), "writers": "default",
+                  "via": "static" if k % 4 else "vf", "flavor": "tt"})
+        out.append(c)
     return out
 
 
